@@ -35,14 +35,14 @@ Definition moves_at_most (o : op) (bound : cbuf -> Z) : Prop :=
 
 Lemma In_zseq a n i : In i (zseq a n) <-> a <= i < a + Z.of_nat n.
 Proof.
-  unfold zseq. rewrite in_map_iff. split.
+  rewrite zseq_map_seq. rewrite in_map_iff. split.
   - intros (k & <- & Hk). apply in_seq in Hk. lia.
   - intros H. exists (Z.to_nat (i - a)). split; [lia|]. apply in_seq. lia.
 Qed.
 
 Lemma NoDup_zseq a n : NoDup (zseq a n).
 Proof.
-  unfold zseq. apply Injective_map_NoDup; [|apply seq_NoDup].
+  rewrite zseq_map_seq. apply Injective_map_NoDup; [|apply seq_NoDup].
   intros x y H. lia.
 Qed.
 
